@@ -675,9 +675,15 @@ def c10_work_items(tier, flt):
             labels = [l for l in envs.quick_entries(env) if l in labels] + extras
         if flt and flt.get("entry"):
             labels = [l for l in labels if l in flt["entry"]]
+        try:
+            import importlib
+
+            xb = getattr(importlib.import_module(f"vf.models.{base._MODULES[env]}"), "EXTRA_BATCH", {})
+        except ModuleNotFoundError:
+            xb = {}
         for label in labels:
             # n >= 2: Hypothesis' first example is always the minimal base key (0, 0)
-            items.append({"env": env, "entry": label, "batch": 64 if tier == "quick" else 256,
+            items.append({"env": env, "entry": label, "batch": (64 if tier == "quick" else 256) * xb.get(label, 1),
                           "n": max(2, int((2 if tier == "quick" else 8) * scale)), "cost": HEAVY.get(env, 1)})
     return items
 
